@@ -141,7 +141,7 @@ def run_ack_con(run, P):
             n += 1
             run.instance('R-REPLY-ONCE', '%s: makes an ACK (%s)' % (name, sev['e'].get('fn')))
         solve(f, Env({}), on_event, None, keys, R, key_fn=lambda e: e.ts.get('tf'), on_branch=on_branch)
-    run.require(n >= (3 if run.cfg == 'base' else 1) or run.fixture_mode, 'R-REPLY-ONCE(ack): fewer than 3 (base) / 1 (reduced configurations) places that make an ACK found')
+    run.require_count(n >= (3 if run.cfg == 'base' else 1) or run.fixture_mode, 'R-REPLY-ONCE(ack): fewer than 3 (base) / 1 (reduced configurations) places that make an ACK found')
 
 
 def run_resolve_order(run, P, fname='handle_request'):
@@ -257,4 +257,4 @@ def run_helper_verdict(run, P, callers=FUNCS):
                                   'is answered a second time' % (hn, 'non-zero' if K is None else K, env.ts['emit'].rsplit('/', 1)[-1]), ctx.path())
             return None
         solve(g, Env(), on_event, None, keys, R, key_fn=lambda e: bool(e.ts.get('emit')))
-    run.require(n >= 1 or run.fixture_mode or run.cfg != 'base', 'R-REPLY-ONCE(helpers that reply): no replying helper called in a condition by %s found' % (callers,))
+    run.require_count(n >= 1 or run.fixture_mode or run.cfg != 'base', 'R-REPLY-ONCE(helpers that reply): no replying helper called in a condition by %s found' % (callers,))
